@@ -189,7 +189,7 @@ def case_compound(case, col=None):
     off, x, other, dst = case["off"], Fraction(case["x"]), case["other"], case["dst"]
     src = ureg.UnitsContainer({off: 1, other: 1})
     # the same unit written as a string: with as_delta=False the offset unit stays an offset unit (the default reading is delta_<unit>)
-    for text in (f"{off} * {other}", f"{off} / {other}", f"{other} / {off}", f"{off} ** 2"):
+    for text in (f"{off} * {other}", f"{off} / {other}", f"{other} / {off}", f"{off} ** 2", f"1 / {off}", f"{off} ** -2", f"{off} ** 0.5", f"{off} ** -1"):
         s_, pu = attempt(ureg.parse_units, text, as_delta=False)
         if s_ == "ok":
             names_ = set(pu._units)
